@@ -46,7 +46,24 @@ func init() {
 		"\ti := 0\n\t_ = d.Value.WalkRootPreOrder(makeWalkFn(func(iv *Value) {\n\t\tvalueRanges[i] = iv.Range\n\t\ti++\n\t}))\n\n\tgaps := ranges.Gaps(r, valueRanges)\n",
 		"\tgaps := ranges.Gaps(r, valueRanges)\n\ti := 0\n\t_ = d.Value.WalkRootPreOrder(makeWalkFn(func(iv *Value) {\n\t\tvalueRanges[i] = iv.Range\n\t\ti++\n\t}))\n",
 		"FillGaps:collect:order")
+	add("c04-path-default-cond", "C04.path", D, "\tif decodeRange.IsZero() {\n\t\tdecodeRange = ranges.Range{Len: brLen}", "\tif decodeRange.Len == 0 {\n\t\tdecodeRange = ranges.Range{Len: brLen}", "decode:range-default")
+	add("c04-path-default-len", "C04.path", D, "decodeRange = ranges.Range{Len: brLen}", "decodeRange = ranges.Range{Len: brLen - decodeRange.Start}", "decode:range-default")
+	add("c04-path-continue-after-success", "C04.path", D, "\t\t\tif len(group.Formats) != 1 {\n\t\t\t\tcontinue\n\t\t\t}\n\t\t}\n", "\t\t}\n\t\tif len(group.Formats) != 1 && len(formatsErr.Errs) > 0 {\n\t\t\tcontinue\n\t\t}\n", "decode:failed-continue")
+	add("c04-path-shift-leafs-only", "C04.path", D, "\t\t\tv.Range.Start += decodeRange.Start\n", "\t\t\tif _, isCompound := v.V.(*Compound); isCompound {\n\t\t\t\tv.Range.Start += decodeRange.Start\n\t\t\t}\n", "decode:shift:start")
+	// C04.leafs (second round)
+	add("c04-leafs-filter-extra-type", "C04.leafs", D, "\t\t\tswitch iv.V.(type) {\n\t\t\tcase *Compound:\n\t\t\tdefault:", "\t\t\tswitch iv.V.(type) {\n\t\t\tcase *Compound, *scalar.BitBuf:\n\t\t\tdefault:", "filter-exact")
+	add("c04-leafs-walk-cut-short", "C04.leafs", D, "\t\t\tswitch iv.V.(type) {\n\t\t\tcase *Compound:\n\t\t\tdefault:", "\t\t\tswitch iv.V.(type) {\n\t\t\tcase *Compound:\n\t\t\t\tif iv.Err != nil {\n\t\t\t\t\treturn ErrWalkSkipChildren\n\t\t\t\t}\n\t\t\tdefault:", "no-abort")
+	add("c04-leafs-collect-conditional", "C04.leafs", D, "\t\tvalueRanges[i] = iv.Range\n\t\ti++\n", "\t\tif iv.Err == nil {\n\t\t\tvalueRanges[i] = iv.Range\n\t\t\ti++\n\t\t}\n", "FillGaps:collect:unconditional")
+	add("c04-leafs-skip-leading-gap", "C04.leafs", D, "\tfor i, gap := range gaps {\n", "\tfor i, gap := range gaps {\n\t\tif gap.Start == 0 && d.Value.Parent != nil {\n\t\t\tcontinue\n\t\t}\n", "FillGaps:gap-add")
+	// C04.merge (second round)
+	add("c04-merge-span-wrong-elem", "C04.merge", R, "\t\t\t\tif ranges[j].Stop() > m.Stop() {\n\t\t\t\t\tm.Len = ranges[j].Stop() - m.Start\n\t\t\t\t}", "\t\t\t\tm = MinMax(m, ranges[i])", "Gaps:merge-predicate")
+	// C04.walk
+	add("c04-walk-callback-conditional", "C04.walk", V, "\t\tif opts.PreOrder {\n\t\t\terr := opts.Fn(wv, rootV, depth, rootDepth+rootDepthDelta)", "\t\tif opts.PreOrder && depth > 0 {\n\t\t\terr := opts.Fn(wv, rootV, depth, rootDepth+rootDepthDelta)", "Walk:callback")
+	add("c04-walk-children-from-1", "C04.walk", V, "\t\t\tfor _, wv := range wvv.Children {\n\t\t\t\tif err := walkFn(wv, rootV, depth+1", "\t\t\tfor _, wv := range wvv.Children[1:] {\n\t\t\t\tif err := walkFn(wv, rootV, depth+1", "Walk:all-children")
+	// C04.link
+	add("c04-link-arrays-not-appended", "C04.link", D, "\t\t\tfv.ByName[v.Name] = v\n\t\t}\n\t\tfv.Children = append(fv.Children, v)", "\t\t\tfv.ByName[v.Name] = v\n\t\t\tfv.Children = append(fv.Children, v)\n\t\t}", "AddChild:")
 	// C04.roots
+	add("c04-roots-fielddecoder-parent-reader", "C04.roots", D, "\t\tOptions: d.Options,\n\n\t\tbitBuf:  bitBuf,", "\t\tOptions: d.Options,\n\n\t\tbitBuf:  d.bitBuf,", "fieldDecoder:one-reader")
 	add("c04-roots-newdecoder", "C04.roots", D, "\t\t\tIsRoot:     opts.IsRoot,", "\t\t\tIsRoot:     false,", "newDecoder:IsRoot")
 	add("c04-roots-walk-skips-start", "C04.roots", V, "if opts.OneRoot && wv != v && wv.IsRoot {", "if opts.OneRoot && wv.IsRoot {", "Walk:one-root-skip")
 	add("c04-roots-rootbitbuf-unmarked", "C04.roots", D, "\tv.RootReader = br\n\tv.IsRoot = true\n", "\tv.RootReader = br\n", "RootReader:(*pkg/decode.D).FieldRootBitBuf")
